@@ -19,10 +19,14 @@ RULE = ("digest ops enumerate a sub-domain on both sides: offs/ats (all position
         "copies, equality), call counts / call order of the user functions, same-object operands. "
         "weight = number of enumerated inputs of an op; an op is non-trivial unless it visits/produces no cell (n=0 / cells=-).")
 ASSUMPTIONS = [
-    "no wrap-around: std::size_t / long arithmetic is modelled by Int (all exercised quantities are far below 2^31)",
+    "integers: the std::size_t instantiation of offset / contents is modelled modulo 2^64 (offsetW, contentsW; offsetW_exact: no visible "
+    "wrap for in-range positions of a grid whose content is representable); everything else uses Int — next_stays_within shows the iteration "
+    "never leaves [min, sup], so its increments cannot overflow; range_dim / contents of the long instantiation are exercised without overflow only",
     "std::vector<long> is a List; vector::operator[] outside [0,size()) is Fault.oob (witnessed by _GLIBCXX_ASSERTIONS / ASan)",
     "positions/dims/min/sup of static size N are lists of length N, index 0 = x",
-    "the carry fold of next_position is modelled by structural recursion over the indices 0..N-2 (same tests in the same order)",
+    "a moved-from grid is observed only through size() (the standard leaves the moved-from vector unspecified after move assignment)",
+    "interpolate: the decomposition of the floating-point position into integral part (float_to_int, position not negative) and fractional part "
+    "(fmod(x, 1)) is an input of the model; the harness uses positions fl + q/4, exact in binary floating point",
 ]
 TRUSTED = ["harness/c08.cpp and the digest/line protocol (vh.hpp, Proto.lean)",
            "g++ 12 + ASan/UBSan + libstdc++ assertions as witness for memory safety of the instantiations"]
@@ -424,13 +428,17 @@ def batches(rng, tier):
 
 MANIFEST = {
     "level_text": ("Machine-checked proof (Lean 4) over an executable model that mirrors the grid templates (stride-accumulating offset fold, "
-                   "next_position carry fold, end_position sentinel, iterator loop, cell-wise constructors): for every static size N >= 1 and "
-                   "every grid size, offset is a bijection between the in-range positions and [0, content); the position range of (min, sup) "
-                   "terminates and visits exactly the box min <= p < sup once each in row-major order, size() many (none iff some min_i >= sup_i); "
-                   "the whole-grid range is in storage order; at_optional, resize, map, apply, fill and the clamp helpers are characterised cell by "
-                   "cell. The model is tied to the code by a differential correspondence that is exhaustive for N in {1,2,3}, extents 0..4."),
+                   "next_position carry fold — also in its literal indexed form, proved equal —, end_position sentinel, iterator loop, cell-wise "
+                   "constructors incl. static rows, special members, comparison, operator<<, interpolate): for every static size N >= 1 and "
+                   "every grid size, offset is a bijection between the in-range positions and [0, content) (also computed modulo 2^64); the position "
+                   "range of (min, sup) terminates and visits exactly the box min <= p < sup once each in row-major order, size() many (none iff "
+                   "some min_i >= sup_i), never leaving [min, sup]; the whole-grid range is in storage order; at_optional, resize, map, apply, fill, "
+                   "writes through sub-ranges and the clamp helpers are characterised cell by cell; copy/move/swap histories act on whole grid "
+                   "values; == is equality of size and cells, < a strict total order; operator<< prints the nested row-major form; interpolate reads "
+                   "exactly the 2^N neighbouring cells. The model is tied to the code by a differential correspondence that is exhaustive for "
+                   "N in {1,2,3}, extents 0..4."),
     "level_note": ("Trusted: Lean kernel + propext/Classical.choice/Quot.sound; fidelity of the hand-written model outside the exercised inputs; "
-                   "Int models size_t/long without wrap-around; harness and digest protocol. No sorry/axiom/native_decide."),
+                   "Int models long without overflow (size_t products modulo 2^64); harness and digest protocol. No sorry/axiom/native_decide."),
     "technique": "Lean 4 proof over hand-written executable model + exhaustive differential correspondence (ASan/UBSan harness)",
     "design_ref": "DESIGN.md §5 C08",
 }
